@@ -15,6 +15,10 @@ package roles
 //
 //@ func (*roles.Reconciler).Reconcile
 //@ props C18
+// the family members whose resources may be granted are listed by the VALUE of the family label of
+// this revision (then narrowed by organisation) - not by the mere presence of a family label
+//@ optional site (client.Reader).List(_, _, $l, $lo...) as list-family
+//@   assert [C18:family-members-are-listed-by-this-revisions-family-label-value] len($lo) == 1 && typeis($lo[0], client.MatchingLabels) && len(as($lo[0], client.MatchingLabels)) == 1 && as($lo[0], client.MatchingLabels)[v1.LabelProviderFamily] == family && family != ""
 //@ requires r != nil
 //@ ghost validated bool = false
 //@ ghost nrejected int = 0
